@@ -196,7 +196,7 @@ def hook(ex, func, argv, frame):
     first = _v(a[0]) if a else None
     kind = getattr(first, 'kind', None)
     mt = re.match(r'^<.* as std::iter::(?:Iterator|DoubleEndedIterator)>::(\w+)$', g) or re.match(r'^std::iter::(?:Iterator|DoubleEndedIterator)::(\w+)$', g)
-    if mt and kind in ('splitn', 'lines', 'peekable'):
+    if mt and kind in ('splitn', 'splitstr', 'lines', 'peekable'):
         meth = mt.group(1)
         if meth == 'next' and kind == 'lines':
             return True, lines_next(ex, first)
